@@ -33,6 +33,47 @@ type c14Case struct {
 func h265Parse(b []byte, donl bool) Ev {
 	p := &codecs.H265Packet{}
 	p.WithDONL(donl)
+	return h265ParseInto(p, b)
+}
+
+// well-formed payloads of each kind with every optional field present (without / with DONL)
+func h265Rich(kind int, donl bool) []byte {
+	switch {
+	case kind == 48 && donl:
+		return []byte{96, 1, 0, 7, 0, 3, 64, 1, 5, 9, 0, 3, 66, 1, 6}
+	case kind == 48:
+		return []byte{96, 1, 0, 3, 64, 1, 5, 0, 3, 66, 1, 6}
+	case kind == 49 && donl:
+		return []byte{98, 1, 147, 0, 7, 1, 2, 3}
+	case kind == 49:
+		return []byte{98, 1, 147, 1, 2, 3}
+	case kind == 50:
+		return []byte{100, 1, 130, 56, 170, 187, 204, 38, 1, 9}
+	case donl:
+		return []byte{38, 1, 0, 9, 4, 4, 4}
+	}
+	return []byte{38, 1, 4, 4, 4}
+}
+
+// h265Used: a receiver that has decoded one payload of every kind, the kind of b last
+func h265Used(b []byte, donl bool) *codecs.H265Packet {
+	p := &codecs.H265Packet{}
+	p.WithDONL(donl)
+	kinds := []int{19, 48, 50, 49}
+	if len(b) > 0 {
+		k := int(b[0]>>1) & 63
+		if k < 48 || k > 50 {
+			k = 19
+		}
+		kinds = append(kinds, k)
+	}
+	for _, k := range kinds {
+		guard(func() { _, _ = p.Unmarshal(h265Rich(k, donl)) })
+	}
+	return p
+}
+
+func h265ParseInto(p *codecs.H265Packet, b []byte) Ev {
 	var err error
 	var head bool
 	r, _ := guard(func() {
@@ -55,8 +96,9 @@ func runC14(raw json.RawMessage, w *Writer) {
 	switch c.Kind {
 	case "decode":
 		d := h265Parse(bytesOf(c.Bytes), c.Donl)
+		u := h265ParseInto(h265Used(bytesOf(c.Bytes), c.Donl), bytesOf(c.Bytes))
 		w.Emit(Ev{"ev": "decode", "bytes": c.Bytes, "donl": c.Donl, "wantok": c.WantOk, "lenient": c.Lenient, "want": c.Want, "full": c.Full,
-			"res": d["res"], "m": d["m"], "head": d["head"]})
+			"res": d["res"], "m": d["m"], "head": d["head"], "used": Ev{"res": u["res"], "m": u["m"]}})
 	case "hdr16":
 		h := codecs.H265NALUHeader(uint16(c.V))
 		w.Emit(Ev{"ev": "hdr16", "v": c.V, "F": h.F(), "Type": int(h.Type()), "LayerID": int(h.LayerID()), "TID": int(h.TID()),
